@@ -280,22 +280,24 @@ Definition ok (c : case) : bool :=
               (* cancelled while blocked on the last opened stream: nothing opened afterwards *)
               final_eqb (obs_final c) FCtxCanceled
               && match s_end (nth_script script (n - 1)) with EHang => true | _ => false end
-            else match p_backoff_after (c_plan c) with
-            | Some j =>
-              if (j <? n) && (1 <=? j) then
-                (* cancelled during the sleep after stream j failed: j is the last stream *)
-                final_eqb (obs_final c) FCtxCanceled && Nat.eqb n (S j)
-              else true
-            | None =>
-              if has_hang_before script n then final_eqb (obs_final c) FTimeout
-              else
-              (* budget exhausted: the last max+1 re-opens all failed empty, the error of the
-                 last one surfaces, and the client neither gave up earlier nor went on longer *)
-              (S (S max) <=? n)
-              && all_empty script (n - S max) (S max)
-              && no_early_window script max 1 (n - S max - 1)
-              && final_eqb (obs_final c) (err_of (s_end (nth_script script (n - 1))))
-            end
+            else
+              let exhausted :=
+                if has_hang_before script n then final_eqb (obs_final c) FTimeout
+                else
+                (* budget exhausted: the last max+1 re-opens all failed empty, the error of the
+                   last one surfaces, and the client neither gave up earlier nor went on longer *)
+                (S (S max) <=? n)
+                && all_empty script (n - S max) (S max)
+                && no_early_window script max 1 (n - S max - 1)
+                && final_eqb (obs_final c) (err_of (s_end (nth_script script (n - 1)))) in
+              match p_backoff_after (c_plan c) with
+              | Some j =>
+                if final_eqb (obs_final c) FCtxCanceled then
+                  (* cancelled during the sleep after stream j failed: j is the last stream *)
+                  Nat.eqb n (S j) && (1 <=? j) && empty_fail (nth_script script j)
+                else exhausted
+              | None => exhausted
+              end
           else
             (* not a watch stream: passed through untouched *)
             Nat.eqb n 1
